@@ -8,6 +8,7 @@ package schedulerplugin
 
 import (
 	corev1 "k8s.io/api/core/v1"
+	"k8s.io/utils/keymutex"
 	"tkestack.io/galaxy/pkg/ipam/cloudprovider"
 )
 
@@ -51,4 +52,18 @@ func (p *FloatingIPPlugin) VerifLsDrainUnreleased() int {
 			return n
 		}
 	}
+}
+
+// VerifLsShrinkLockPools replaces the hashed mutex tables behind the per-pod and the deployment/pool keyed locks by tables
+// of n buckets, PRESERVING whether the two pools are one table or two (so that a harness can force two keys into the same
+// bucket: with n = 1 every key of a table is the same mutex).  Call before the plugin is used.
+func (p *FloatingIPPlugin) VerifLsShrinkLockPools(n int) (shared bool) {
+	shared = p.podLockPool == p.dpLockPool
+	p.podLockPool = keymutex.NewHashed(n)
+	if shared {
+		p.dpLockPool = p.podLockPool
+	} else {
+		p.dpLockPool = keymutex.NewHashed(n)
+	}
+	return shared
 }
